@@ -543,7 +543,7 @@ func init() {
 
 func init() {
 	properties["C16"] = &property{
-		explanation: "Decides the 'decoders are total ... never an internally inconsistent object' mechanisms of C16 for the binary decoders of mat, stat/card and mathext/prng and for graph6/digraph6: DECODE.mul — a product of two decoded integers is preceded on every path by a division-based overflow guard; DECODE.range — a decoded integer used as a shift count or allocation size is range-checked in an error-returning branch on every path before that use; DECODE.len — a variable-length field decoded into the receiver is length-checked before success is returned; DECODE.selfcmp — no compatibility comparison has two sides denoting the same expression ('merges only with compatible sketches'); DECODE.gate — every exported graph6/digraph6 accessor passes IsValid before touching raw bytes (helpers that index without a length test are found by a must-pass analysis, not listed); DECODE.clone — the clone methods of the RDF canonicalisation state give every slice/map field fresh storage (a shared `ordered` slice makes the canonical labelling depend on recursion order); DECODE.fields — every receiver field a Marshal* method writes out is stored by the matching Unmarshal* method (23 codec method pairs of mat, stat/card, mathext/prng, cytoscapejs, sigmajs, gexf12), so no decoded object keeps part of the receiver's previous state; TWIN.generated — hll64.go is the image of hll32.go. Found and repaired: rows*cols overflow in Dense.UnmarshalBinary[From], unvalidated p/register in HyperLogLog.UnmarshalBinary, the self-comparison in Union. Does NOT decide round-trip equality, the gocc/Ragel generated DOT and N-Quads parsers, or RDF canonicalisation. DECODE.errdrop — in the codec packages the error result of a same-package function is never discarded by a call statement or a blank assignment (found and repaired: the DOT printers dropped the error of their own recursive call, so a mismatched subgraph two levels down produced truncated output and a nil error).",
+		explanation: "Decides the 'decoders are total ... never an internally inconsistent object' mechanisms of C16 for the binary decoders of mat, stat/card and mathext/prng and for graph6/digraph6: DECODE.mul — a product of two decoded integers is preceded on every path by a division-based overflow guard; DECODE.range — a decoded integer used as a shift count or allocation size is range-checked in an error-returning branch on every path before that use; DECODE.len — a variable-length field decoded into the receiver is length-checked before success is returned; DECODE.selfcmp — no compatibility comparison has two sides denoting the same expression ('merges only with compatible sketches'); DECODE.gate — every exported graph6/digraph6 accessor passes IsValid before touching raw bytes (helpers that index without a length test are found by a must-pass analysis, not listed); DECODE.clone — the clone methods of the RDF canonicalisation state give every slice/map field fresh storage (a shared `ordered` slice makes the canonical labelling depend on recursion order); DECODE.fields — every receiver field a Marshal* method writes out is stored by the matching Unmarshal* method (23 codec method pairs of mat, stat/card, mathext/prng, cytoscapejs, sigmajs, gexf12), so no decoded object keeps part of the receiver's previous state; TWIN.generated — hll64.go is the image of hll32.go. Found and repaired: rows*cols overflow in Dense.UnmarshalBinary[From], unvalidated p/register in HyperLogLog.UnmarshalBinary, the self-comparison in Union. Does NOT decide round-trip equality, the gocc/Ragel generated DOT and N-Quads parsers, or RDF canonicalisation. DECODE.errdrop — in the codec packages the error result of a same-package function is never discarded by a call statement or a blank assignment (found and repaired: the DOT printers dropped the error of their own recursive call, so a mismatched subgraph two levels down produced truncated output and a nil error). DECODE.order — in the 17 Unmarshal*/GobDecode methods none of the 32 returns of a validation error (package-level error variable, errors.New, fmt.Errorf) is reachable after the receiver was written or resized, so a rejected input leaves no half-built value behind (found and repaired: HyperLogLog.UnmarshalBinary decoded into its own fields before validating them).",
 		assumptions: commonAssumptions,
 		run: func(tier string, res *core.Result) {
 			pu := paramuse.Run(def, core.Pkgs("./graph/encoding/...", "./stat/card", "./mathext/prng"))
@@ -553,6 +553,10 @@ func init() {
 			ed := decode.RunErrDrop(def, core.Scope{Patterns: []string{"./graph/encoding/...", "./graph/formats/rdf", "./graph/formats/dot", "./stat/card", "./mathext/prng", "./mat"}, Files: codecFiles})
 			ed.Floor("same_package_error_calls", 30)
 			res.Merge(ed)
+			do := decode.RunOrder(def, core.Scope{Patterns: []string{"./stat/card", "./mathext/prng", "./mat", "./graph/...", "./spatial/...", "./stat/..."}})
+			do.Floor("decoder_methods_ordered", 12)
+			do.Floor("validation_error_returns", 20)
+			res.Merge(do)
 			d := decode.Run(def, "./mat", "./stat/card", "./mathext/prng", "./graph/encoding/graph6", "./graph/encoding/digraph6")
 			d.Floor("decoder_methods", 10)
 			d.Floor("decoded_cells", 30)
@@ -660,6 +664,8 @@ func dump(argv []string) {
 		res = flagx.RunBetaZero(def, core.Pkgs(argv[1:]...))
 	case "guardop":
 		res = flagx.RunGuardOperand(def, core.Pkgs(argv[1:]...))
+	case "decodeorder":
+		res = decode.RunOrder(def, core.Pkgs(argv[1:]...))
 	case "errdrop":
 		res = decode.RunErrDrop(def, core.Pkgs(argv[1:]...))
 	case "idindex":
